@@ -1,4 +1,408 @@
-(* Case runner and spec checker (T3) for C06 — stub. *)
-From WI Require Import Lib.Base Lib.Info Model.Containers.
-Definition run_C06 (op : bytes) (input : arg) : arg := AL [].
-Definition check_C06 (op : bytes) (input impl : arg) : arg := AL [].
+(* Case runner and spec checker (T3) for C06. *)
+From WI Require Import Lib.Base Lib.Info Lib.Strings Lib.Time Model.Dispatch Model.Containers.
+Open Scope N_scope.
+
+(* ---------- recorded library answers ---------- *)
+Definition result_of_obs {A} (f : arg -> A) (a : arg) : result A :=
+  match a with
+  | AL [AZ 0%Z; x] => Ok (f x)
+  | AL [AZ 2%Z] => Panic "oracle"
+  | _ => Err "oracle"
+  end.
+Definition attrs_of_arg (a : arg) : attrs := map attr_of_arg (arg_list a).
+
+Fixpoint assoc_bytes (k : bytes) (t : list arg) : option arg :=
+  match t with
+  | [] => None
+  | r :: t' => if bytes_eqb (arg_bytes (arg_nth 0 r)) k then Some (arg_nth 1 r) else assoc_bytes k t'
+  end.
+Fixpoint assoc_Z (k : Z) (t : list arg) : option arg :=
+  match t with
+  | [] => None
+  | r :: t' => if Z.eqb (arg_Z (arg_nth 0 r)) k then Some (arg_nth 1 r) else assoc_Z k t'
+  end.
+Fixpoint assoc_bytes2 (k1 k2 : bytes) (t : list arg) : option arg :=
+  match t with
+  | [] => None
+  | r :: t' =>
+      if bytes_eqb (arg_bytes (arg_nth 0 r)) k1 && bytes_eqb (arg_bytes (arg_nth 1 r)) k2
+      then Some (arg_nth 2 r) else assoc_bytes2 k1 k2 t'
+  end.
+
+Definition lib_of (oracle : list arg) (l : bytes) : result attrs :=
+  match assoc_bytes l oracle with
+  | Some o => result_of_obs attrs_of_arg o
+  | None => Err "oracle-missing"
+  end.
+
+(* file.Inspect: the candidates in table order, first success wins (Model/Dispatch.v); the
+   container parser's own answer comes from the model, the other candidates' are recorded *)
+Definition inspect_with (cands : list arg) (target : list bytes) (mine : result info) : result info :=
+  first_success
+    (fun n _ => if existsb (bytes_eqb n) target then mine
+                else match assoc_bytes n cands with
+                     | Some o => result_of_obs info_of_arg o
+                     | None => Err "oracle-missing"
+                     end)
+    (map (fun c => arg_bytes (arg_nth 0 c)) cands) [].
+
+Definition out3 (mine : result info) (cands : list arg) (target : list bytes) (rok : bool) : arg :=
+  AL [obs_result arg_of_info mine; obs_result arg_of_info (inspect_with cands target mine); ok_arg rok].
+
+(* ---------- SSH files ---------- *)
+Definition item_of_arg (a : arg) : item :=
+  let k := arg_Z (arg_nth 0 a) in
+  if (k =? 0)%Z then IEntry (arg_bytes (arg_nth 1 a))
+  else if (k =? 1)%Z then IBlank (arg_bytes (arg_nth 1 a))
+  else IComment (arg_bytes (arg_nth 1 a)) (arg_bytes (arg_nth 2 a)).
+
+Definition render_ok_ssh (layout : arg) (data : bytes) : bool :=
+  match layout with
+  | AL [AL items; le; trail] =>
+      bytes_eqb (render (map item_of_arg items) (if arg_bool le then CRLF else LF) (arg_nat trail)) data
+  | _ => true
+  end.
+
+(* the library hypothesis of C06_authorized_keys / C06_known_hosts, sampled on the recorded answers:
+   every entry line is accepted, and a CR at its end makes no difference *)
+Definition attrs_eqb (a b : attrs) : bool := arg_eqb (arg_of_info (Info [] a [])) (arg_of_info (Info [] b [])).
+Definition lib_hyp_ok (lib : bytes -> result attrs) (layout : arg) : bool :=
+  match layout with
+  | AL [AL items; _; _] =>
+      forallb (fun it => match item_of_arg it with
+                         | IEntry e => match lib e, lib (e ++ [13]) with
+                                       | Ok a, Ok b => attrs_eqb a b
+                                       | _, _ => false
+                                       end
+                         | _ => true
+                         end) items
+  | _ => true
+  end.
+
+Definition run_ssh (hosts : bool) (input : arg) : arg :=
+  let data := arg_bytes (arg_nth 1 input) in
+  let lib := lib_of (arg_list (arg_nth 2 input)) in
+  let mine := if hosts then known_hosts lib data else authorized_keys lib data in
+  out3 mine (arg_list (arg_nth 3 input))
+       [if hosts then bs "SSHKnownHosts" else bs "SSHAuthorizedKeys"]
+       (render_ok_ssh (arg_nth 4 input) data && lib_hyp_ok lib (arg_nth 4 input)).
+
+(* ---------- PEM ---------- *)
+Definition lastn {A} (k : nat) (l : list A) : list A := drop (length l - k) l.
+
+Definition dec_of (oracle : list arg) (rest : bytes) : option (pblock * bytes) :=
+  match assoc_Z (Z.of_nat (length rest)) oracle with
+  | Some (AL [AB t; AB b; n]) => Some (mkpblock t b, lastn (arg_nat n) rest)
+  | _ => None
+  end.
+Definition desc_of (oracle : list arg) (b : pblock) : result info :=
+  match assoc_bytes2 (pb_type b) (pb_bytes b) oracle with
+  | Some o => result_of_obs info_of_arg o
+  | None => Err "oracle-missing"
+  end.
+
+Definition render_ok_pem (layout : arg) (data : bytes) : bool :=
+  match layout with
+  | AL [AL items] => bytes_eqb (concat (map (fun it => arg_bytes (arg_nth 1 it)) items)) data
+  | _ => true
+  end.
+
+(* the pem.Decode hypothesis of C06_pem_bundle, sampled: at the start of every well-formed block of the
+   layout, Decode returns that block and exactly what follows its armor *)
+Fixpoint dec_hyp_ok (dec : bytes -> option (pblock * bytes)) (items : list arg) (rest : bytes) : bool :=
+  match items with
+  | [] => true
+  | it :: r =>
+      let t := arg_bytes (arg_nth 1 it) in
+      let after := drop (length t) rest in
+      (if (arg_Z (arg_nth 0 it) =? 0)%Z then
+         match dec rest with
+         | Some (b, rest') =>
+             bytes_eqb (pb_type b) (arg_bytes (arg_nth 2 it)) && bytes_eqb (pb_bytes b) (arg_bytes (arg_nth 3 it))
+             && bytes_eqb rest' after
+         | None => false
+         end
+       else true) && dec_hyp_ok dec r after
+  end.
+Definition pem_hyp_ok (dec : bytes -> option (pblock * bytes)) (layout : arg) (data : bytes) : bool :=
+  match layout with
+  | AL [AL items] => dec_hyp_ok dec items data
+  | _ => true
+  end.
+
+Definition run_pem (input : arg) : arg :=
+  let data := arg_bytes (arg_nth 1 input) in
+  let mine := pem_file (dec_of (arg_list (arg_nth 2 input))) (desc_of (arg_list (arg_nth 3 input))) data in
+  out3 mine (arg_list (arg_nth 4 input)) [bs "PEMFile"]
+       (render_ok_pem (arg_nth 5 input) data && pem_hyp_ok (dec_of (arg_list (arg_nth 2 input))) (arg_nth 5 input) data).
+
+(* ---------- keystores ---------- *)
+Definition secret_of (oracle : list arg) (off : N) (rest : bytes) : result (N * bytes * bytes) :=
+  match assoc_Z (Z.of_N off) oracle with
+  | Some (AL [AZ 0%Z; n; AB seal; AB content]) => Ok (arg_N n, seal, content)
+  | Some (AL [AZ 2%Z]) => Panic "oracle"
+  | _ => Err "oracle"
+  end.
+Definition cert_of (oracle : list arg) (der : bytes) : result info :=
+  match assoc_bytes der oracle with
+  | Some o => result_of_obs info_of_arg o
+  | None => Err "oracle-missing"
+  end.
+Definition enc_of (oracle : list arg) (key seal : bytes) : bytes :=
+  match assoc_bytes2 key seal oracle with
+  | Some o => arg_bytes o
+  | None => []
+  end.
+
+Definition cert_of_arg (a : arg) : jcert := mkjcert (arg_bytes (arg_nth 0 a)) (arg_bytes (arg_nth 1 a)).
+Definition entry_of_arg (a : arg) : jentry * bytes :=
+  (mkjentry (arg_N (arg_nth 0 a)) (arg_bytes (arg_nth 1 a)) (be_to_N (arg_bytes (arg_nth 2 a)))
+            (arg_bytes (arg_nth 3 a)) (arg_bytes (arg_nth 4 a)) (map cert_of_arg (arg_list (arg_nth 6 a))),
+   arg_bytes (arg_nth 5 a)).
+
+Definition render_ok_jks (layout : arg) (data : bytes) : bool :=
+  match layout with
+  | AL [AB magic; version; AL entries; AB mac] =>
+      bytes_eqb (jks_encode magic (arg_N version) (map entry_of_arg entries) mac) data
+  | _ => true
+  end.
+
+(* the conclusion of the codec theorem, sampled: the reader returns exactly the entries written *)
+Definition jcert_eqb (a b : jcert) : bool := bytes_eqb (jc_type a) (jc_type b) && bytes_eqb (jc_bytes a) (jc_bytes b).
+Fixpoint list_eqb {A} (eqb : A -> A -> bool) (a b : list A) : bool :=
+  match a, b with
+  | [], [] => true
+  | x :: a', y :: b' => eqb x y && list_eqb eqb a' b'
+  | _, _ => false
+  end.
+Definition jentry_eqb (a b : jentry) : bool :=
+  (je_type a =? je_type b) && bytes_eqb (je_alias a) (je_alias b) && (je_date a =? je_date b)
+  && bytes_eqb (je_key a) (je_key b) && bytes_eqb (je_seal a) (je_seal b) && list_eqb jcert_eqb (je_certs a) (je_certs b).
+Definition jks_roundtrip_ok (secret : N -> bytes -> result (N * bytes * bytes)) (layout : arg) (data : bytes) : bool :=
+  match layout with
+  | AL [_; _; AL entries; _] =>
+      match jks_parse secret data with
+      | Ok es => list_eqb jentry_eqb es (map (fun e => fst (entry_of_arg e)) entries)
+      | _ => false
+      end
+  | _ => true
+  end.
+
+Definition run_jks (input : arg) : arg :=
+  let data := arg_bytes (arg_nth 1 input) in
+  let desc := if prefix_of jceks_magic data then jceks_desc else jks_desc in
+  let mine := keystore_file (cert_of (arg_list (arg_nth 3 input))) (enc_of (arg_list (arg_nth 4 input))) true
+                            (secret_of (arg_list (arg_nth 2 input))) desc data in
+  out3 mine (arg_list (arg_nth 5 input)) [bs "JavaKeystore"; bs "JCEKeystore"]
+       (render_ok_jks (arg_nth 6 input) data && jks_roundtrip_ok (secret_of (arg_list (arg_nth 2 input))) (arg_nth 6 input) data).
+
+Definition run_C06 (op : bytes) (input : arg) : arg :=
+  if bytes_eqb op (bs "akeys") then run_ssh false input
+  else if bytes_eqb op (bs "khosts") then run_ssh true input
+  else if bytes_eqb op (bs "pem") then run_pem input
+  else if bytes_eqb op (bs "jks") then run_jks input
+  else AL [].
+
+(* ====================================================================== *)
+(* The property, evaluated on what the implementation reported (T3).  Written from the
+   statement of C06, not from the model: a container written down with n entries has a
+   report with exactly n children, in input order, child i being the description of entry
+   i inspected on its own (recorded by the harness from the single-object parsers).
+   Descriptions and entry-type names are typed from the report format / keytool. *)
+
+Definition info_eqb (a b : info) : bool := arg_eqb (arg_of_info a) (arg_of_info b).
+Definition obs_info (o : arg) : option info :=
+  match o with AL [AZ 0%Z; i] => Some (info_of_arg i) | _ => None end.
+
+Definition msg (pre : string) (a : N) (mid : string) (b : N) (post : string) : arg :=
+  AB (bs pre ++ dec_of_N a ++ bs mid ++ dec_of_N b ++ bs post).
+
+(* expected children: None = a child must be there, whatever it says *)
+Fixpoint first_bad_child (k : N) (want : list (option info)) (got : list info) : option N :=
+  match want, got with
+  | [], [] => None
+  | Some w :: want', g :: got' => if info_eqb w g then first_bad_child (k + 1) want' got' else Some k
+  | None :: want', _ :: got' => first_bad_child (k + 1) want' got'
+  | _, _ => Some k
+  end.
+
+(* a container report: description, no attributes of its own, the expected children *)
+Definition check_container (what : string) (desc : bytes) (want : list (option info)) (o : arg) : arg :=
+  match obs_info o with
+  | None => AB (bs what ++ bs ": a well-formed file with " ++ dec_of_N (N.of_nat (length want)) ++ bs " entries is unreadable (error or panic)")
+  | Some i =>
+      if negb (bytes_eqb (i_desc i) desc) then
+        AB (bs what ++ bs ": reported as '" ++ i_desc i ++ bs "' with " ++ dec_of_N (N.of_nat (length (i_children i)))
+              ++ bs " children; " ++ dec_of_N (N.of_nat (length want)) ++ bs " entries were written")
+      else if negb (Nat.eqb (length (i_children i)) (length want)) then
+        AB (bs what ++ bs ": report has " ++ dec_of_N (N.of_nat (length (i_children i))) ++ bs " children for "
+              ++ dec_of_N (N.of_nat (length want)) ++ bs " entries")
+      else match first_bad_child 0 want (i_children i) with
+           | Some k => AB (bs what ++ bs ": child " ++ dec_of_N k ++ bs " does not describe entry " ++ dec_of_N k ++ bs " as it is described when inspected alone (or entries are out of order)")
+           | None => AL []
+           end
+  end.
+
+Arguments check_container what%string desc want o.
+Arguments msg pre%string a mid%string b post%string.
+
+Definition both (f : arg -> arg) (impl : arg) : arg :=
+  match f (arg_nth 1 impl) with          (* what file.Inspect reports *)
+  | AL [] => f (arg_nth 0 impl)           (* what the parser returns *)
+  | v => v
+  end.
+
+(* --- SSH --- *)
+Fixpoint ssh_want (hosts : bool) (items alone : list arg) : option (list (option info)) :=
+  match items with
+  | [] => Some []
+  | it :: r =>
+      if (arg_Z (arg_nth 0 it) =? 0)%Z then
+        match alone with
+        | a :: alone' =>
+            match obs_info a, ssh_want hosts r alone' with
+            | Some (Info d at_ []), Some w =>
+                if bytes_eqb d (bs "SSH public key") then
+                  Some (Some (Info (bs "SSH public key")
+                                   (if hosts then (bs "Hosts", arg_bytes (arg_nth 2 it)) :: at_ else at_) []) :: w)
+                else None
+            | _, _ => None
+            end
+        | [] => None
+        end
+      else ssh_want hosts r alone
+  end.
+
+Definition check_ssh (hosts : bool) (input impl : arg) : arg :=
+  match arg_nth 4 input with
+  | AL [AL items; _; _] =>
+      match ssh_want hosts items (arg_list (arg_nth 5 input)) with
+      | Some want =>
+          both (check_container (if hosts then "known_hosts" else "authorized_keys")%string
+                                (if hosts then bs "SSH known_hosts" else bs "SSH authorized_keys") want) impl
+      | None => AS "an entry of the generated file is not described as an SSH public key when inspected alone"
+      end
+  | _ => AL []
+  end.
+
+(* --- PEM --- *)
+Fixpoint pem_want (items alone : list arg) : option (list (option info)) :=
+  match items with
+  | [] => Some []
+  | it :: r =>
+      let k := arg_Z (arg_nth 0 it) in
+      if (k =? 0)%Z then
+        match alone with
+        | a :: alone' =>
+            match obs_info a, pem_want r alone' with
+            | Some i, Some w => Some (Some i :: w)
+            | _, _ => None
+            end
+        | [] => None
+        end
+      else if (k =? 3)%Z then
+        match pem_want r alone with Some w => Some (None :: w) | None => None end
+      else pem_want r alone
+  end.
+
+Definition has_broken (items : list arg) : bool := existsb (fun it => (arg_Z (arg_nth 0 it) =? 3)%Z) items.
+
+Definition check_pem_obs (broken : bool) (want : list (option info)) (o : arg) : arg :=
+  match want with
+  | [] => AL []
+  | [None] => AL []
+  | [Some w] =>
+      match obs_info o with
+      | Some i => if info_eqb i w then AL [] else AS "PEM file with one block is not described as that block"
+      | None => AS "PEM file with one block is unreadable"
+      end
+  | _ =>
+      match check_container "PEM bundle" (bs "multiple PEM blocks") want o with
+      | AL [] => AL []
+      | AB v => AB (v ++ (if broken then bs " [bundle contains a block whose base64 body is undecodable]" else []))
+      | v => v
+      end
+  end.
+
+Definition check_pem (input impl : arg) : arg :=
+  match arg_nth 5 input with
+  | AL [AL items] =>
+      match pem_want items (arg_list (arg_nth 6 input)) with
+      | Some want => both (check_pem_obs (has_broken items) want) impl
+      | None => AS "a block of the generated bundle cannot be inspected alone"
+      end
+  | _ => AL []
+  end.
+
+(* --- keystores --- *)
+Definition spec_type_name (t : Z) : bytes :=
+  if (t =? 1)%Z then bs "PrivateKeyEntry" else if (t =? 2)%Z then bs "trustedCertEntry"
+  else if (t =? 3)%Z then bs "SecretKeyEntry" else [].
+
+Definition spec_date (d8 : bytes) : bytes :=
+  let u := Z.of_N (be_to_N d8) in
+  let ms := if (u <? 2 ^ 63)%Z then u else (u - 2 ^ 64)%Z in
+  fmt_rfc3339 (ms / 1000)%Z 0.
+
+Definition is_cert_desc (d : bytes) : bool := has_suffix (bs " certificate") d.
+
+(* one entry: "alias (type)", its date, one child per certificate of the chain in order
+   (equal to the certificate inspected alone when that is a certificate), then the key *)
+Definition jks_entry_ok (e : arg) (alone : list arg) (got : info) : bool :=
+  let t := arg_Z (arg_nth 0 e) in
+  let certs := arg_list (arg_nth 6 e) in
+  let nkey := if (t =? 1)%Z || (t =? 3)%Z then 1%nat else 0%nat in
+  let want := map (fun ca => match ca with
+                             | (c, a) =>
+                                 if bytes_eqb (map to_upper_ascii (arg_bytes (arg_nth 0 c))) (bs "X.509") then
+                                   match obs_info a with
+                                   | Some i => if is_cert_desc (i_desc i) then Some i else None
+                                   | None => None
+                                   end
+                                 else None
+                             end) (combine certs alone) in
+  bytes_eqb (i_desc got) (arg_bytes (arg_nth 1 e) ++ bs " (" ++ spec_type_name t ++ bs ")")
+  && arg_eqb (arg_of_info (Info [] (i_attrs got) [])) (arg_of_info (Info [] [(bs "Date", spec_date (arg_bytes (arg_nth 2 e)))] []))
+  && Nat.eqb (length (i_children got)) (length certs + nkey)
+  && match first_bad_child 0 want (firstn (length certs) (i_children got)) with None => true | Some _ => false end
+  && match nkey, skipn (length certs) (i_children got) with
+     | O, [] => true
+     | S _, [k] => bytes_eqb (i_desc k) (if (t =? 1)%Z then bs "Private key (encrypted)" else bs "Symmetric key or password (encrypted)")
+     | _, _ => false
+     end.
+
+Fixpoint jks_first_bad (k : N) (es alone : list arg) (got : list info) : option N :=
+  match es, alone, got with
+  | [], _, [] => None
+  | e :: es', a :: alone', g :: got' =>
+      if jks_entry_ok e (arg_list a) g then jks_first_bad (k + 1) es' alone' got' else Some k
+  | _, _, _ => Some k
+  end.
+
+Definition check_jks_obs (magic : bytes) (es alone : list arg) (o : arg) : arg :=
+  let desc := if bytes_eqb magic [206; 206; 206; 206] then bs "Java Keystore (JCEKS)" else bs "Java Keystore (JKS)" in
+  match check_container "keystore" desc (map (fun _ => None) es) o with
+  | AL [] =>
+      match obs_info o with
+      | Some i =>
+          match jks_first_bad 0 es alone (i_children i) with
+          | Some k => msg "keystore: child " k " does not describe entry " k " (alias, type, date, one child per certificate of the chain in order as inspected alone, key)"
+          | None => AL []
+          end
+      | None => AL []
+      end
+  | v => v
+  end.
+
+Definition check_jks (input impl : arg) : arg :=
+  match arg_nth 6 input with
+  | AL [AB magic; _; AL es; _] => both (check_jks_obs magic es (arg_list (arg_nth 7 input))) impl
+  | _ => AL []
+  end.
+
+Definition check_C06 (op : bytes) (input impl : arg) : arg :=
+  if bytes_eqb op (bs "akeys") then check_ssh false input impl
+  else if bytes_eqb op (bs "khosts") then check_ssh true input impl
+  else if bytes_eqb op (bs "pem") then check_pem input impl
+  else if bytes_eqb op (bs "jks") then check_jks input impl
+  else AL [].
